@@ -1,7 +1,7 @@
 (* Model/Stack.v — stacks of filesystems over one universal state type, the top-level
    case language (targets, handle slots, snapshots) and its interpreter. *)
 From AF Require Import Lib.Bytes Lib.Path Lib.Ops Gen.Consts Model.MemFile Model.MemFs Model.ReadOnly Model.BasePath
-  Model.Regexp Model.Union Model.Cow Model.Cache.
+  Model.Regexp Model.Union Model.Cow Model.Cache Model.Faulty.
 
 Inductive stack :=
 | SMem
@@ -9,7 +9,8 @@ Inductive stack :=
 | SBasePath (root : str) (k : stack)
 | SRegexp (pat : nat) (k : stack)
 | SCow (b l : stack)
-| SCache (dur : Z) (b l : stack).
+| SCache (dur : Z) (b l : stack)
+| SFaulty (pl : list (nat * fault)) (k : stack).   (* fault injector: UW1 <call trace, newest first> <inner> *)
 
 (* the regular expressions the harness uses, as functions of the whole name (all three are
    decided by the final path element); package regexp itself is trusted *)
@@ -32,7 +33,7 @@ Inductive ust :=
 Fixpoint uinit (k : stack) : ust :=
   match k with
   | SMem => UMem m_init
-  | SReadOnly k' | SBasePath _ k' | SRegexp _ k' => UW1 [] (uinit k')
+  | SReadOnly k' | SBasePath _ k' | SRegexp _ k' | SFaulty _ k' => UW1 [] (uinit k')
   | SCow b l | SCache _ b l => UW2 BIG [] (uinit b) (uinit l)
   end.
 
@@ -58,6 +59,9 @@ Fixpoint ustep (k : stack) (u : ust) (o : op) : ust * res :=
   | SCache dur kb kl =>
       let '((b', l', t'), r) := cache_step (ustep kb) (ustep kl) (dur * 1000000000000) (clk2 u) (base2 u, layer2 u, tbl2 u) o in
       (UW2 (clk2 u) t' b' l', r)
+  | SFaulty pl k' =>
+      let '((i', _), r) := faulty_step (ustep k') (fault_plan_of pl) (unwrap1 u, length (wrapped1 u)) o in
+      (UW1 (fault_op_code o :: wrapped1 u) i', r)
   end.
 
 (* apply an op to a layer of the stack addressed by a list of child indices *)
@@ -67,7 +71,7 @@ Fixpoint ustep_at (k : stack) (tgt : list nat) (u : ust) (o : op) : ust * res :=
   | c :: t' =>
     match k with
     | SMem => (u, RNoSlot)
-    | SReadOnly k' | SBasePath _ k' | SRegexp _ k' =>
+    | SReadOnly k' | SBasePath _ k' | SRegexp _ k' | SFaulty _ k' =>
       let '(i', r) := ustep_at k' t' (unwrap1 u) o in (UW1 (wrapped1 u) i', r)
     | SCow kb kl | SCache _ kb kl =>
       match c with
@@ -81,7 +85,7 @@ Fixpoint ustep_at (k : stack) (tgt : list nat) (u : ust) (o : op) : ust * res :=
 Fixpoint uset_clock (k : stack) (u : ust) (now : Z) : ust :=
   match k with
   | SMem => match u with UMem m => UMem (mkM (mdata m) (mheap m) (mhandles m) now) | _ => u end
-  | SReadOnly k' | SBasePath _ k' | SRegexp _ k' => UW1 (wrapped1 u) (uset_clock k' (unwrap1 u) now)
+  | SReadOnly k' | SBasePath _ k' | SRegexp _ k' | SFaulty _ k' => UW1 (wrapped1 u) (uset_clock k' (unwrap1 u) now)
   | SCow kb kl | SCache _ kb kl =>
     UW2 now (tbl2 u) (uset_clock kb (base2 u) now) (uset_clock kl (layer2 u) now)
   end.
@@ -89,7 +93,7 @@ Fixpoint uset_clock (k : stack) (u : ust) (now : Z) : ust :=
 Fixpoint usub (k : stack) (tgt : list nat) (u : ust) : option mst :=
   match tgt, k with
   | [], SMem => match u with UMem m => Some m | _ => None end
-  | _ :: t', SReadOnly k' | _ :: t', SBasePath _ k' | _ :: t', SRegexp _ k' => usub k' t' (unwrap1 u)
+  | _ :: t', SReadOnly k' | _ :: t', SBasePath _ k' | _ :: t', SRegexp _ k' | _ :: t', SFaulty _ k' => usub k' t' (unwrap1 u)
   | c :: t', SCow kb kl | c :: t', SCache _ kb kl =>
     match c with O => usub kb t' (base2 u) | _ => usub kl t' (layer2 u) end
   | _, _ => None
